@@ -122,7 +122,7 @@ func (s vfC08Step) String() string {
 	case vfC08UnsubCmd:
 		r = fmt.Sprintf("unsubCmd(k%d c%d)", s.Conn, s.Ch)
 	case vfC08ClientUnsub:
-		r = fmt.Sprintf("Client.Unsubscribe(k%d c%d)", s.Conn, s.Ch)
+		r = fmt.Sprintf("Client.Unsubscribe(k%d c%d x%d)", s.Conn, s.Ch, s.N)
 	case vfC08NodeUnsub:
 		r = fmt.Sprintf("Node.Unsubscribe(user of k%d, c%d)", s.Conn, s.Ch)
 	case vfC08GapPublish:
@@ -257,7 +257,9 @@ func vfC08Gen(rt *rapid.T) vfC08Case {
 			s.Gate = !s.Server && rapid.IntRange(0, 3).Draw(rt, "gate") == 0
 			subscribed = append(subscribed, [2]int{s.Conn, s.Ch})
 		case vfC08GapPublish:
-			s.N = rapid.IntRange(1, 3).Draw(rt, "n")
+			s.N = rapid.IntRange(1, 5).Draw(rt, "n")
+		case vfC08ClientUnsub:
+			s.N = rapid.IntRange(1, 4).Draw(rt, "n")
 		case vfC08Advance:
 			s.AdvMs = rapid.SampledFrom([]int{1, 500, 1000, 1500, 2000, 3000, 4000, 6000}).Draw(rt, "adv")
 		case vfC08Misc:
@@ -269,6 +271,13 @@ func vfC08Gen(rt *rapid.T) vfC08Case {
 			s.Par = rapid.IntRange(0, 3).Draw(rt, "par") == 0
 		}
 		c.Steps = append(c.Steps, s)
+		if s.Kind == vfC08Subscribe && s.Gate && i != shutdownAt-1 && i != shutdownAt-2 && rapid.Bool().Draw(rt, "waiters") {
+			// several unsubscribes wait for the parked subscribe and are woken together by its completion
+			c.Steps = append(c.Steps,
+				vfC08Step{Kind: vfC08ClientUnsub, Conn: s.Conn, Ch: s.Ch, N: rapid.SampledFrom([]int{1, 2, 4, 8, 12}).Draw(rt, "waitersN")},
+				vfC08Step{Kind: rapid.SampledFrom([]int{vfC08NodeUnsub, vfC08ClientUnsub, vfC08Release}).Draw(rt, "waiters2"), Conn: s.Conn, Ch: s.Ch, N: 1},
+				vfC08Step{Kind: vfC08Release, Conn: s.Conn})
+		}
 	}
 	np := rapid.IntRange(0, 2).Draw(rt, "nprobes")
 	for i := 0; i < np; i++ {
@@ -342,7 +351,7 @@ type vfC08ConnState struct {
 	busy       chan struct{} // closed when the in-flight client command returned
 	connectAt  int64         // world seq when the connect command was issued (0 = not yet)
 	subIDs     map[uint32]string
-	serverOK   map[string]int // successful Client.Subscribe calls per channel
+	serverOK   map[string]int // Client.Subscribe calls per channel
 	connSubs   map[string]int // connect-time subscriptions handed out by OnConnecting
 	extended   bool
 	gatedSub   bool // a gated client subscribe command is in flight
@@ -683,9 +692,10 @@ func vfC08Run(t *testing.T, cs vfC08Case, out *vfC08Out, isKnown func(string) bo
 				guardClose([]*vfC08ConnState{k})
 			case vfC08NodeDisconnect:
 				guardClose(sameUser(k))
-			case vfC08Shutdown, vfC08Advance:
+			case vfC08Shutdown:
 				guardClose(states)
-			case vfC08GapPublish, vfC08Publish:
+			case vfC08GapPublish, vfC08Publish, vfC08Advance:
+				// one delivery gap or one presence tick can spawn several close() calls for the same client at once
 				releaseAllSubGates()
 			}
 			parkedSomewhere := len(w.Gates.AnyWaiting()) > 0
@@ -720,12 +730,11 @@ func vfC08Run(t *testing.T, cs vfC08Case, out *vfC08Out, isKnown func(string) bo
 						break
 					}
 					applied = true
+					k.mu.Lock()
+					k.serverOK[ch]++ // attempts: an upper bound (Subscribe may commit and still return a write error)
+					k.mu.Unlock()
 					go func() {
-						if err := k.conn.Client.Subscribe(ch, func(o *SubscribeOptions) { *o = chOpts(s.Ch) }); err == nil {
-							k.mu.Lock()
-							k.serverOK[ch]++
-							k.mu.Unlock()
-						}
+						_ = k.conn.Client.Subscribe(ch, func(o *SubscribeOptions) { *o = chOpts(s.Ch) })
 					}()
 				} else {
 					if k.connectAt == 0 {
@@ -763,7 +772,9 @@ func vfC08Run(t *testing.T, cs vfC08Case, out *vfC08Out, isKnown func(string) bo
 				}
 				applied = true
 				ch := chName(s.Ch)
-				go k.conn.Client.Unsubscribe(ch)
+				for i := 0; i < s.N; i++ { // concurrent server API calls for the same subscription
+					go k.conn.Client.Unsubscribe(ch)
+				}
 			case vfC08NodeUnsub:
 				applied = true
 				ch := chName(s.Ch)
